@@ -76,6 +76,7 @@ type pipe struct {
 	broken     error // stream torn down: frames lost, both ends fail
 	emitted    int
 	delivered  int
+	held       bool // fault: nothing is delivered from this direction for now
 }
 
 func (p *pipe) key() unsafe.Pointer { return unsafe.Pointer(p) }
@@ -455,7 +456,7 @@ func (c *Conn) clientRecv(m proto.Message) error {
 			p.mu.Unlock()
 			return err
 		}
-		if len(p.q) > 0 && p.q[0].ready {
+		if len(p.q) > 0 && p.q[0].ready && !p.held {
 			f := p.q[0]
 			p.q = p.q[1:]
 			p.qbytes -= len(f.b)
@@ -614,7 +615,7 @@ func (c *Conn) serverRecv(m proto.Message) error {
 			p.mu.Unlock()
 			return status.Error(codes.Canceled, "context canceled")
 		}
-		if len(p.q) > 0 && p.q[0].ready {
+		if len(p.q) > 0 && p.q[0].ready && !p.held {
 			f := p.q[0]
 			p.q = p.q[1:]
 			p.qbytes -= len(f.b)
@@ -661,6 +662,36 @@ func (c *Conn) serverSetTrailer(md metadata.MD) {
 	c.s2c.mu.Lock()
 	c.trailer = metadata.Join(c.trailer, md)
 	c.s2c.mu.Unlock()
+}
+
+// HoldDelivery stops (or resumes) delivery towards the RPC-initiating end of
+// the tunnel (the tunnel client): the network client on a forward tunnel, the
+// network server on a reverse tunnel.
+func (c *Conn) HoldDelivery(on bool) {
+	p := &c.s2c
+	if c.Reverse {
+		p = &c.c2s
+	}
+	p.mu.Lock()
+	p.held = on
+	p.mu.Unlock()
+	simrt.Emit(simrt.Event{Kind: EvFault, S: "hold-delivery", A: int64(c.ID), B: b2i(on)})
+	if !on {
+		simrt.Wake(p.key())
+	}
+}
+
+// SendBlockedTowardsServer reports whether the pipe that carries the tunnel
+// client's frames (towards the tunnel server) is at capacity: a Send in that
+// direction is then blocked by transport back-pressure.
+func (c *Conn) SendBlockedTowardsServer() bool {
+	p := &c.c2s
+	if c.Reverse {
+		p = &c.s2c
+	}
+	p.mu.Lock()
+	defer p.mu.Unlock()
+	return c.full(p, 1)
 }
 
 // InFlight returns the number of frames queued in each direction.
